@@ -135,6 +135,8 @@ def enumerate_group(rx: str, group: str, limit=64):
 
 
 def run(chk, ctx) -> None:
+    from .helpers import rotated_helper
+    rotated_helper(chk, ctx, 'C20.order')
     prog = ctx.prog
     sev = SEval(prog)
     base = prog.cls('REParser')
